@@ -362,7 +362,7 @@ fn part_c_put(kind: usize, ro_mask: u8, out: &mut Partial) {
 // ------------------------------------------------------------------------------------------ (d)
 
 const NATS: [&str; 4] = ["reachable", "firewalled", "port-rewritten", "port-remapped-after-confirmation"];
-const VOTES: [&str; 5] = ["all-truthful", "one-liar", "tie", "one-liar-higher-address", "one-liar-same-ip-higher-port"];
+const VOTES: [&str; 6] = ["all-truthful", "one-liar", "tie", "one-liar-higher-address", "one-liar-same-ip-higher-port", "lone-bootstrap-with-an-empty-table"];
 const CONFS: [&str; 3] = ["adaptive", "server_mode()", "public_ip()"];
 
 thread_local! {
@@ -393,7 +393,15 @@ fn part_d(chooser: Chooser, nat: usize, votes: usize, conf: usize, faults: bool,
     let sib_ep = net.base + 4;
     w.endpoints[sib_ep].addr = sibling;
     net.eps[4].addr = sibling;
-    let boots: Vec<SocketAddrV4> = net.addrs()[..4].to_vec();
+    // votes pattern 5: one bootstrap server that knows nobody (its answers list no nodes, but
+    // they still report the requester's address): the node's only lookups "find nothing"
+    let lone = votes == 5;
+    if lone {
+        for e in net.eps.iter_mut() {
+            e.knows = Some(vec![]);
+        }
+    }
+    let boots: Vec<SocketAddrV4> = net.addrs()[..if lone { 1 } else { 4 }].to_vec();
     let mut sibling_pinged = false;
     let mut cfg = NodeCfg::new(ip.octets(), 7000).bootstrap(&boots).id([0x21; 20]);
     cfg.nat = match nat {
@@ -572,8 +580,12 @@ fn part_d(chooser: Chooser, nat: usize, votes: usize, conf: usize, faults: bool,
                 if s.core.firewalled {
                     problems.push((format!("firewalled-not-cleared/{}", VOTES[votes]), format!("{ctx}: still firewalled after 35 minutes")));
                 }
-                if !s.core.server_mode || server_at.map(|t| t > 30 * MIN + 30 * SEC).unwrap_or(true) {
-                    problems.push((format!("no-switch-to-server/{}", VOTES[votes]), format!("{ctx}: server mode reached at {:?} min (must be by the second refresh, 30 min)", server_at.map(|t| t / MIN))));
+                // "at the next 15-minute refresh": its peers report the address from the first
+                // lookup on, so without message loss that is the refresh at minute 15; when replies
+                // of the first ten seconds may be lost, the one after it at the latest
+                let deadline = if faults { 30 * MIN + 30 * SEC } else { 15 * MIN + 60 * SEC };
+                if !s.core.server_mode || server_at.map(|t| t > deadline).unwrap_or(true) {
+                    problems.push((format!("no-switch-to-server/{}", VOTES[votes]), format!("{ctx}: server mode reached at {:?} min (must be by the {} refresh)", server_at.map(|t| t / MIN), if faults { "second" } else { "first" })));
                 }
                 if s.core.public_address != Some(ext) {
                     problems.push((format!("wrong-public-address/{}", VOTES[votes]), format!("{ctx}: public_address = {:?}, peers report {ext}", s.core.public_address)));
